@@ -148,6 +148,29 @@ pub fn gen_case(seed: u64, k: u64, tier: Tier) -> Case {
       }
     }
   }
+  // a module that other modules import only as a text / bytes asset may also be asked for as a root
+  // (an asset entry is then replaced by the module, whichever came first)
+  if rng.chance(35) {
+    let assets: Vec<String> = c
+      .world
+      .entries
+      .iter()
+      .filter(|(s, e)| {
+        // only with the matching unstable option on: with it off every such import is an error entry
+        // filed at the TARGET, which a root request for the same specifier then fights over - a mix of
+        // attribute-less and attributed requests that the same-attribute proviso excludes
+        let cls = attr_class_target(s, true);
+        ((cls == 2 && c.unstable.1) || (cls == 3 && c.unstable.0)) && matches!(e, Entry::Module { .. })
+      })
+      .map(|(s, _)| s.clone())
+      .collect();
+    if !assets.is_empty() {
+      let r = rng.pick(&assets).clone();
+      if !roots.contains(&r) {
+        roots.push(r);
+      }
+    }
+  }
   // alias chains: a2 -> a1 -> module, imported by a root, so that reload can go through an alias
   if rng.chance(60) && !plain.is_empty() {
     let target = rng.pick(&plain).clone();
